@@ -67,12 +67,10 @@ def py_match(pat, name):
 
 
 def _max_ranges():
-    import re as _re
-    try:
-        m = _re.search(r"#define\s+MAX_RANGES\s+(\d+)", open(os.path.join(vlib.REPO, "src/common/hostlist.c")).read())
-        return int(m.group(1))
-    except Exception:
-        return 10240
+    """the largest number of items between one pair of brackets that the host-list parser accepts (hostlist.c MAX_RANGES in the
+    tree this machinery was built against; deliberately NOT read from the tree under test: an exclusion of a few thousand
+    items that used to work must keep working)"""
+    return 10240
 
 
 def spec(case, matches):
